@@ -17,8 +17,9 @@
   stored, belonging document with identity `id` (⊆, even with syntactic equality of the tuple);
   every tuple of every stored belonging document has an entry with its identity (⊇, up to
   `tupleEq`);  no two entries with the same identity and `tupleEq` keys.
-  NOT covered here: the btree's key ORDER (the model keeps entries in insertion order; `Index.List`
-  is not modelled), reload from a file (C06), failed calls/aborts beyond "the state is unchanged"
+  NOT covered here: the btree's key ORDER (the model keeps entries in insertion order and
+  `Index.list` sorts them; `index_list_sorted_partial` proves "each once", not the order),
+  reload from a file (C06), failed calls/aborts beyond "the state is unchanged"
   (the model's `Sys.step` returns the old state on error by construction; the clone discipline
   that makes this true in Go is C02's).
   No C12 law is needed for C15: coherence never uses transitivity of `Compare`.
@@ -66,6 +67,18 @@ theorem coherent_rebuild {c : Coll} {n : String} {i j : Index} (hc : Coherent sc
     (hm : (n, i) ∈ c.indexes) (h : rebuild sch i c.docs = .ok (j, true)) :
     sameEntries i j ∧ IndexCoherent sch (· ∈ c.docs) j ∧ j.config = i.config ∧ j.columns = i.columns :=
   Lungo.coherent_rebuild hc hm h
+
+/-- "each once and in key order" — PARTIAL. Full statement:
+      `i.list` (model of `Index.List()`: entries stably sorted by `keyLe i.columns`, identities
+      deduplicated keeping the first) enumerates exactly the belonging documents, each once, AND
+      `i.list` is ascending w.r.t. each document's smallest key tuple.
+    Proved: exactly the belonging documents, each once. Missing: the ordering clause (needs
+    `List.sorted_mergeSort` for `keyLe`, i.e. totality/transitivity of `keyLe`, which hold only on
+    `TupOk` tuples (C12) — a sorted-ness lemma relative to a carrier predicate is not in core). -/
+theorem index_list_sorted_partial {c : Coll} {n : String} {i : Index} (hc : Coherent sch c)
+    (hm : (n, i) ∈ c.indexes) :
+    i.list.Nodup ∧ ∀ id, id ∈ i.list ↔ ∃ sd ∈ c.docs, sd.id = id ∧ belongs sch i sd.doc :=
+  index_list_exact hc hm
 
 /-! ### Every collection method preserves coherence (and freshness of the identity counter) -/
 
@@ -271,6 +284,10 @@ open Lungo.IndexFixtures
     [("_id", .i32 4), ("a", .i32 8), ("b", .i32 0)]) fun (c, _) => entriesOf c "b_1" == 0 && c.docs.length == 4
 #guard okAnd (updateIn (insertInto demoPartial [("_id", .i32 3), ("a", .i32 7), ("b", .i32 0)])
     [("_id", .i32 3)] [("$set", .doc [("b", .i32 5)])]) fun (c, _) => entriesOf c "b_1" == 1
+-- `Index.list`: ascending by key, each document once (the multikey document under its smallest key)
+#guard okAnd (insertInto demo [("_id", .i32 3), ("a", .f64 0)]) fun (c, _) =>
+  (c.indexes.lookup "a_1").map Index.list == some [2, 0, 1] &&
+  (c.indexes.lookup "_id_").map Index.list == some [0, 1, 2]
 -- create same = no-op; conflicting definition / same key under another name fail
 #guard okAnd (createIn demo "a_1" cfgA) fun (c, _) => names c == ["_id_", "a_1"] && entriesOf c "a_1" == 3
 #guard okAnd (createIn demo "" cfgA) fun (c, _) => names c == ["_id_", "a_1"]
